@@ -50,6 +50,8 @@ func (g *FastGoBackend) Lang() string { return "FastGo" }
 
 // Generate implements the Backend interface.
 func (g *FastGoBackend) Generate(req *plugin.Request, log backend.LogFunc) *plugin.Response {
+	// the methods genBLength / genFastWrite / genFastRead declare
+	g.GoBackend.ExtraStructMethods = []string{"BLength", "FastWrite", "FastWriteNocopy", "FastAppend", "FastRead"}
 	ret := g.GoBackend.Generate(req, log)
 	if ret.Error != nil {
 		return ret
